@@ -20,6 +20,29 @@ def check(ctx):
     nloops = lr.run(EE, rep)
     rep.floor("loops reachable from filter evaluation", nloops, 5)
     rep.floor("visited-set / work-list loops (L3)", lr.counts["L3"], 1)
+    # `==` / `!=` are Value's own equality and the ordered operators its order: where a literal kind has hand-written impls, eq and cmp
+    # must agree with each other (a Ref whose == also looks at the display name makes `id == @a` false while `id <= @a && id >= @a`
+    # holds). The unit clause of Number's order is left open by the property text and is not taken over from C12
+    from rules import eqrule
+
+    class _NoUnitOrder:
+        def __init__(self, r):
+            self._r = r
+
+        def __getattr__(self, k):
+            return getattr(self._r, k)
+
+        def bad(self, rule, key, where, msg, detail=None):
+            if key.endswith("Number:Q2:cmp-fields-equal-eq-fields"):
+                self._r.note("R-EQ Number Q2 (cmp ignores the unit) is outside C07: the statement leaves the order of Numbers with different units open")
+                return
+            self._r.bad(rule, key, where, msg, detail)
+
+    eqrule.check(ctx, _NoUnitOrder(rep))
+    # a filter that is rejected cannot be evaluated: the nesting counter of the parser is a depth, not a budget
+    from rules import recursion
+    ngb = recursion.check_guard_balance(ctx, rep)
+    rep.floor("depth counters", ngb, 2)
     rep.note("Not decided: path resolution through resolvers, list element semantics, how Numbers with different units are ordered - truth values over all filters x records are runtime.")
     return ("Operator tables read from the MIR switch tables compose to the identity on the six operators: lexer spelling -> token -> CmpOp (to_cmp_op) -> "
             "comparator fn item applied by Cmp::eval, and CmpOp -> printed spelling (Display). R-CMPGUARD: every comparator call in Cmp::eval is "
